@@ -32,6 +32,8 @@ pub(crate) struct SqMem {
     pub(crate) flags: AtomicU32,
     pub(crate) dropped: AtomicU32,
     pub(crate) sqes: [libc::io_uring_sqe; MAX_ENTRIES],
+    /// see verif_stubs::V (keeps the static's bytes unlike any constant)
+    magic: u64,
 }
 
 #[repr(C, align(64))]
@@ -41,10 +43,19 @@ pub(crate) struct CqMem {
     pub(crate) overflow: AtomicU32,
     pub(crate) flags: AtomicU32,
     pub(crate) cqes: [libc::io_uring_cqe; MAX_ENTRIES],
+    magic: u64,
 }
 
-pub(crate) static mut SQ: SqMem = unsafe { mem::zeroed() };
-pub(crate) static mut CQ: CqMem = unsafe { mem::zeroed() };
+pub(crate) static mut SQ: SqMem = {
+    let mut m: SqMem = unsafe { mem::zeroed() };
+    m.magic = 0x5EED_A10C_0000_0051;
+    m
+};
+pub(crate) static mut CQ: CqMem = {
+    let mut m: CqMem = unsafe { mem::zeroed() };
+    m.magic = 0x5EED_A10C_0000_00C1;
+    m
+};
 
 pub(crate) fn sq_mem() -> &'static mut SqMem {
     unsafe { &mut *(&raw mut SQ) }
@@ -192,19 +203,19 @@ pub(crate) fn new_submission() -> Submission {
 // Hook table helpers.
 // ---------------------------------------------------------------------------
 
-pub(crate) static mut MUNMAPS: u32 = 0;
-pub(crate) static mut CLOSES: u32 = 0;
-pub(crate) static mut LAST_CLOSED: i32 = -1;
+pub(crate) static mut MUNMAPS: crate::verif_stubs::V<u32> = crate::verif_stubs::V::new(0);
+pub(crate) static mut CLOSES: crate::verif_stubs::V<u32> = crate::verif_stubs::V::new(0);
+pub(crate) static mut LAST_CLOSED: crate::verif_stubs::V<i32> = crate::verif_stubs::V::new(-1);
 
 unsafe fn munmap_noop(_: NonNull<libc::c_void>, _: libc::size_t) -> std::io::Result<()> {
-    unsafe { MUNMAPS += 1 };
+    unsafe { MUNMAPS.v += 1 };
     Ok(())
 }
 
 unsafe fn close_count(fd: libc::c_int) -> libc::c_int {
     unsafe {
-        CLOSES += 1;
-        LAST_CLOSED = fd;
+        CLOSES.v += 1;
+        LAST_CLOSED.v = fd;
     }
     0
 }
@@ -229,38 +240,38 @@ pub(crate) fn install(table: verif_hooks::Table) {
 // ---------------------------------------------------------------------------
 
 pub(crate) const N_WAKERS: usize = 4;
-pub(crate) static mut WAKES: [u32; N_WAKERS] = [0; N_WAKERS];
-pub(crate) static mut WAKER_CLONES: [i32; N_WAKERS] = [0; N_WAKERS];
+pub(crate) static mut WAKES: crate::verif_stubs::V<[u32; N_WAKERS]> = crate::verif_stubs::V::new([0; N_WAKERS]);
+pub(crate) static mut WAKER_CLONES: crate::verif_stubs::V<[i32; N_WAKERS]> = crate::verif_stubs::V::new([0; N_WAKERS]);
 /// Global order in which wakers were woken: WAKE_STAMP[id] = k means waker
 /// `id` was (last) woken as the k-th wake overall (1-based).
-pub(crate) static mut WAKE_STAMP: [u32; N_WAKERS] = [0; N_WAKERS];
-pub(crate) static mut WAKE_SEQ: u32 = 0;
+pub(crate) static mut WAKE_STAMP: crate::verif_stubs::V<[u32; N_WAKERS]> = crate::verif_stubs::V::new([0; N_WAKERS]);
+pub(crate) static mut WAKE_SEQ: crate::verif_stubs::V<u32> = crate::verif_stubs::V::new(0);
 
 unsafe fn w_clone(data: *const ()) -> task::RawWaker {
     let id = data as usize - 1;
-    unsafe { WAKER_CLONES[id] += 1 };
+    unsafe { WAKER_CLONES.v[id] += 1 };
     task::RawWaker::new(data, &WAKER_VTABLE)
 }
 unsafe fn w_wake(data: *const ()) {
     let id = data as usize - 1;
     unsafe {
-        WAKES[id] += 1;
-        WAKE_SEQ += 1;
-        WAKE_STAMP[id] = WAKE_SEQ;
-        WAKER_CLONES[id] -= 1;
+        WAKES.v[id] += 1;
+        WAKE_SEQ.v += 1;
+        WAKE_STAMP.v[id] = WAKE_SEQ.v;
+        WAKER_CLONES.v[id] -= 1;
     }
 }
 unsafe fn w_wake_by_ref(data: *const ()) {
     let id = data as usize - 1;
     unsafe {
-        WAKES[id] += 1;
-        WAKE_SEQ += 1;
-        WAKE_STAMP[id] = WAKE_SEQ;
+        WAKES.v[id] += 1;
+        WAKE_SEQ.v += 1;
+        WAKE_STAMP.v[id] = WAKE_SEQ.v;
     }
 }
 unsafe fn w_drop(data: *const ()) {
     let id = data as usize - 1;
-    unsafe { WAKER_CLONES[id] -= 1 };
+    unsafe { WAKER_CLONES.v[id] -= 1 };
 }
 
 static WAKER_VTABLE: task::RawWakerVTable = task::RawWakerVTable::new(w_clone, w_wake, w_wake_by_ref, w_drop);
@@ -268,21 +279,21 @@ static WAKER_VTABLE: task::RawWakerVTable = task::RawWakerVTable::new(w_clone, w
 /// Waker number `id` (< N_WAKERS). Waking it increments `WAKES[id]`.
 pub(crate) fn waker(id: usize) -> task::Waker {
     unsafe {
-        WAKER_CLONES[id] += 1;
+        WAKER_CLONES.v[id] += 1;
         task::Waker::from_raw(task::RawWaker::new((id + 1) as *const (), &WAKER_VTABLE))
     }
 }
 
 pub(crate) fn wakes(id: usize) -> u32 {
-    unsafe { WAKES[id] }
+    unsafe { WAKES.v[id] }
 }
 
 pub(crate) fn waker_clones(id: usize) -> i32 {
-    unsafe { WAKER_CLONES[id] }
+    unsafe { WAKER_CLONES.v[id] }
 }
 
 pub(crate) fn wake_stamp(id: usize) -> u32 {
-    unsafe { WAKE_STAMP[id] }
+    unsafe { WAKE_STAMP.v[id] }
 }
 
 /// Identity of a waker created by [`waker`], None for foreign wakers.
